@@ -44,6 +44,14 @@ fn commands() -> Vec<(&'static str, &'static str, &'static str, u64)> {
         ("arbiter-register", "arbiter", "a", 0),
         ("conflicting-write", "set-safe conf 0 other{n}", "a", 1),
         ("resolve", "resolve {opid} a conf 1 decided{n}", "a", 2),
+        // writes an arbiter-strategy database ACCEPTS (round 10): on a secondary the copy that comes back from the primary
+        // meets the version the secondary already gave the key - whatever the secondary makes of its own echo, the
+        // operation stays one forward, the copies and their acknowledgements
+        ("arbiter-set-safe-accepted-new-key", "set-safe ak{n} 5 v{n}", "a", 1),
+        ("arbiter-set-safe-accepted-existing-key", "set-safe afree 90{n} w{n}", "a", 1),
+        ("arbiter-set", "set aplain v{n}", "a", 1),
+        ("arbiter-increment", "increment acounter 2", "a", 1),
+        ("arbiter-remove", "remove aplain", "a", 1),
         // the same write kinds on a newer-strategy database (conflicts are settled by the node itself)
         ("newer-set", "set nk v{n}", "nw", 1),
         ("newer-set-safe-stale", "set-safe nk 0 stale{n}", "nw", 1),
@@ -215,7 +223,24 @@ pub fn run_cluster(n: usize, seed0: u64, order: &[usize], failover: bool, v: &Ve
         if let Some((p, detail)) = problem {
             // the cluster's past (formed fresh / after a fail-over) is part of the replay, not of the signature: a command that
             // exceeds the bound at a role does so through the same code in both
-            let sig = json!({"check": "burst", "command": name, "issued_at": role, "problem": p});
+            // what the burst is made of is part of the signature of an oversized burst: a listed excess (the same record
+            // forwarded twice) does not excuse an excess of another kind (a resynchronisation, an election, ...)
+            let sig = if p == "more-messages-than-forward-plus-copies-plus-acks" {
+                let kinds: BTreeSet<String> = burst.iter().map(|l| {
+                    let mut w: Vec<&str> = l.3.trim().split(' ').collect();
+                    if w.first() == Some(&"rp") && w.len() > 2 {
+                        w.drain(..2);
+                    }
+                    match (w.first().copied(), w.get(2)) {
+                        (Some("replicate"), Some(k)) if k.starts_with("$conflicts_") => "replicate:conflict-record".to_string(),
+                        (Some(word), _) => word.to_string(),
+                        _ => String::new(),
+                    }
+                }).collect();
+                json!({"check": "burst", "command": name, "issued_at": role, "problem": p, "burst_made_of": kinds.into_iter().collect::<Vec<_>>()})
+            } else {
+                json!({"check": "burst", "command": name, "issued_at": role, "problem": p})
+            };
             let known = v.report(sig, json!({"nodes": n, "seed": seed0, "measured_after_failover": failover, "command": line, "reply": reply, "detail": detail,
                 "burst_head": burst.iter().take(40).map(|l| format!("[{}] n{}->n{} {}", l.0, l.1, l.2, l.3)).collect::<Vec<_>>(), "burst_lines": burst.len()}));
             let _ = known;
